@@ -85,8 +85,10 @@ Replaced == 99
 NoCfg == [pol |-> "none", localdc |-> "", localrack |-> "", ta |-> FALSE, shuffle |-> FALSE, nonlocal |-> FALSE]
 Init == lay = <<<<>>, <<>>, <<>>>> /\ cfg = NoCfg /\ ksi = 0 /\ ks2i = 0 /\ hist = <<>> /\ stage = 0
 PickLayout == /\ stage = 0
-              /\ \E r \in EnumRings(MaxLen, MaxNodes, MaxVnodes) :
-                   \E d \in EnumDcIdx(EnumMaxOf(RangeOf(r)), NDcs) :
+              \* x = 1: one more host that owns no token (known to the driver - a contact point, a joining node - without
+              \* ring positions); only next to the one-token ring, the remove tails then leave a ring with hosts but no token
+              /\ \E r \in EnumRings(MaxLen, MaxNodes, MaxVnodes) : \E x \in (IF Len(r) = 1 THEN {0, 1} ELSE {0}) :
+                   \E d \in EnumDcIdx(EnumMaxOf(RangeOf(r)) + x, NDcs) :
                      \E k \in EnumRackIdx(d, Len(d), NRacks) : lay' = <<r, d, k>>
               /\ stage' = 1 /\ UNCHANGED <<cfg, ksi, ks2i, hist>>
 \* policies that are not token aware do not look at the keyspace: one keyspace suffices
